@@ -154,6 +154,32 @@ def programs(bases=None, prefix=""):
          "derived: result without reference unit")
     emit("b3_res_single_unit", B3_PRE, ['#[quantity(Foo * Bar)]', '#[ref_unit(Bazoo, "b")]', 'struct Baz {}'], True,
          "derived: result without reference unit (single-unit path)")
+    # --- argument-kind matrix: every argument position x every wrong token kind -----------
+    WRONG = {"int": "5", "float": "1.5", "char": "'c'", "bool": "true", "bytes": 'b"x"', "str": '"Txt"', "ident": "Abc", "path": "a::Abc",
+             "neg": "-1", "paren": "(1.0)", "array": "[1.0]"}
+
+    def matrix(tag, base, pre, idx, attr, good, allowed):
+        """good: argument list of a well-formed attribute; allowed[i]: token kinds that
+        keep position i well-formed (or make the attribute a different but
+        well-formed one) and are therefore not emitted."""
+        for i in range(len(good)):
+            for kind, tok in sorted(WRONG.items()):
+                if kind in allowed[i]:
+                    continue
+                args = list(good)
+                args[i] = tok
+                emit("%s_%s_arg%d_%s" % (tag, attr, i, kind), pre, sub(base, idx, "#[%s(%s)]" % (attr, ", ".join(args))), True, "wrong kind of argument")
+    # #[unit(ident, symbol, prefix, scale, doc)] next to a reference unit
+    matrix("b1m", B1, [], 3, "unit", ["Inch", '"in"', "NONE", "0.0254", '"doc"'],
+           [{"ident"}, {"str"}, {"ident"}, {"int", "float", "neg"}, {"str"}])
+    # 3-argument form: third argument is the scale (a prefix alone or a doc alone is a unit without scale: rejected as well)
+    matrix("b1m3", B1, [], 3, "unit", ["Inch", '"in"', "0.0254"], [{"ident"}, {"str"}, {"int", "float", "neg"}])
+    # (a negative number in a scale position is a numeric literal of the right kind: accepted by the macro and
+    # not among the property's defect classes; positivity of the catalogue's scales is C01's scale-table rule)
+    # #[ref_unit(ident, symbol, prefix, doc)]
+    matrix("b1r", B1, [], 1, "ref_unit", ["Meter", '"m"', "NONE", '"doc"'], [{"ident"}, {"str"}, {"ident", "str"}, {"str"}])
+    # #[unit(ident, symbol, doc)] without reference unit
+    matrix("b2m", B2, [], 2, "unit", ["Celsius", '"°C"', '"doc"'], [{"ident"}, {"str"}, {"str"}])
     return progs
 
 
@@ -277,7 +303,7 @@ def run(ctx):
                 ctx.ob("ui-expected-error", "%s/%d:%d" % (name, loc[0], loc[1]), bool(hit),
                        "the repository records an error at %d:%d (%r); none is reported there; got %s" % (
                            loc[0], loc[1], msg[:60], [(e[1].splitlines()[0][:60], e[3], e[4]) for e in errs][:3]), where, nontrivial=(code is None))
-    ctx.floor("compile-fail witnesses", n_fail, (60 + 13) if ctx.tier != "thorough" else (4 * 60 + 13))
+    ctx.floor("compile-fail witnesses", n_fail, (200 + 13) if ctx.tier != "thorough" else (4 * 200 + 13))
     ctx.floor("compiling twins", n_pass, 4 if ctx.tier != "thorough" else 16)
     ctx.extra["witness_dir"] = d
     ctx.rule_text = "one program per defect class x base definition, each type-checked on its own (cargo check --examples --keep-going); verdict = rustc error inside the offending definition; twins must compile"
